@@ -311,6 +311,21 @@ def pop_order(h, callee_regex):
                     out.append((c["ln"], "swapped"))
                 else:
                     out.append((c["ln"], "unrelated"))
+    # sequential form: `let right = stack.pop()?; let left = stack.pop()?; callee(left, right, ..)` in one block
+    for blk in find_all(h["body"], lambda z: z.get("k") == "block" and z.get("stmts")):
+        st = blk["stmts"] + ([blk["expr"]] if blk.get("expr") else [])
+        pops = [(i, s_["pat"]["id"]) for i, s_ in enumerate(st) if isinstance(s_, dict) and s_.get("k") == "let" and isinstance(s_.get("pat"), dict) and s_["pat"].get("k") == "bind" and s_.get("init") is not None and find_all(s_["init"], popcall) and not find_all(s_["init"], lambda z: z.get("k") == "tup")]
+        if len(pops) < 2:
+            continue
+        first, second = {pops[0][1]}, {pops[1][1]}
+        for s_ in st[pops[1][0] + 1:]:
+            for c in find_all(s_, lambda z: calls_path(z, callee_regex)):
+                args = c.get("args", [])
+                if len(args) < 2:
+                    continue
+                a0l = bool(find_all(args[0], lambda z: is_lid(z, second))); a0r = bool(find_all(args[0], lambda z: is_lid(z, first)))
+                a1l = bool(find_all(args[1], lambda z: is_lid(z, second))); a1r = bool(find_all(args[1], lambda z: is_lid(z, first)))
+                out.append((c["ln"], "ok" if (a0l and a1r and not a0r and not a1l) else "swapped" if (a0r and a1l and not a0l and not a1r) else "unrelated"))
     return out
 
 
@@ -320,3 +335,87 @@ def inside_loop(h, node):
         if l is not node and find_all(l, lambda z: z is node):
             return True
     return False
+
+
+# ----------------------------------------------------------------------------------------------- finite abstract evaluation
+class _Ret(Exception):
+    def __init__(self, v):
+        self.v = v
+
+
+class Unknown(Exception):
+    pass
+
+
+def eval_pure(node, env, consts):
+    """Abstract evaluation of a small pure decision function over ONE point of a finite input domain: integer / boolean
+    comparisons, `&&`/`||`/`!`, `if`/`else`, early `return`, blocks, `Ok(..)`/`Err(..)` results (returned as 'Ok' / 'Err').
+    env: {local id: value, 'self.<field>': value}; consts: {constant name: int}. Anything else raises Unknown (the caller must
+    then fall back or fail closed). Nothing of the analysed program is executed: this interprets its HIR."""
+    def ev(n):
+        if not isinstance(n, dict):
+            raise Unknown(str(n))
+        k = n.get("k")
+        if k == "block":
+            for st in n.get("stmts", []):
+                ev(st)
+            return ev(n["expr"]) if n.get("expr") is not None else None
+        if k == "semi":
+            ev(n["e"])
+            return None
+        if k in ("addr", "use", "paren", "droptemps"):
+            return ev(n["e"])
+        if k == "unary":
+            v = ev(n["a"])
+            if n.get("op") == "Not":
+                return not v
+            if n.get("op") == "Deref":
+                return v
+            raise Unknown("unary " + str(n.get("op")))
+        if k == "binary":
+            op = n["op"]
+            if op == "And":
+                return bool(ev(n["a"])) and bool(ev(n["b"]))
+            if op == "Or":
+                return bool(ev(n["a"])) or bool(ev(n["b"]))
+            a, b = ev(n["a"]), ev(n["b"])
+            if op in ("Lt", "Le", "Gt", "Ge", "Eq", "Ne"):
+                return {"Lt": a < b, "Le": a <= b, "Gt": a > b, "Ge": a >= b, "Eq": a == b, "Ne": a != b}[op]
+            raise Unknown("binary " + op)
+        if k == "if":
+            if ev(n["cond"]):
+                return ev(n["then"])
+            return ev(n["else"]) if n.get("else") is not None else None
+        if k == "ret":
+            raise _Ret(ev(n["e"]) if n.get("e") is not None else None)
+        if k == "lit":
+            return n.get("v")
+        if k == "path":
+            r = n.get("res") or {}
+            if r.get("dk") == "Local":
+                if r.get("id") in env:
+                    return env[r["id"]]
+                raise Unknown("local " + str(r.get("name")))
+            nm = (r.get("path") or "").split("::")[-1]
+            if nm in consts:
+                return consts[nm]
+            raise Unknown("path " + str(r.get("path")))
+        if k == "field":
+            key = "self." + n.get("name", "")
+            if key in env:
+                return env[key]
+            raise Unknown("field " + key)
+        if k == "call":
+            cn = ctor_name(n) or ""
+            if cn.endswith("::Ok"):
+                return "Ok"
+            if cn.endswith("::Err"):
+                return "Err"
+            raise Unknown("call " + cn)
+        if k == "tup" and not n.get("es"):
+            return None
+        raise Unknown(str(k))
+    try:
+        return ev(node)
+    except _Ret as r:
+        return r.v
